@@ -288,6 +288,13 @@ package plush
 //@ errprop
 //@ assigns nothing
 
+// the closure that auto-supplies one omitted trailing parameter (helper context, options map, or zero value)
+//@ func evalCallExpression$1
+//@ requires arg != 0 && c != nil && node != nil
+//@ ensures grow: len(args) == old(len(args)) + 1 && (forall j int :: 0 <= j && j < old(len(args)) ==> args[j] == old(args[j]))
+//@ ensures last: rvValid(args[len(args)-1]) && assignable(rvType(args[len(args)-1]), arg)
+//@ assigns args, fresh
+
 //@ func (c *compiler) evalCallExpression
 //@ ensures ufn: is(result, "*userFunction") ==> pay(result) != 0
 //@ requires node != nil
